@@ -83,6 +83,18 @@ pub fn build_local_search_solver(
          _: Option<u32>| {
             #[cfg(feature = "rssched_verif")]
             crate::verif::record_step(current_solution.solution().get_schedule());
+            #[cfg(feature = "rssched_verif")]
+            crate::verif::record_step_objective(
+                current_solution
+                    .objective_value()
+                    .iter()
+                    .map(|level| match level {
+                        rapid_solve::objective::BaseValue::Integer(i) => i.to_string(),
+                        rapid_solve::objective::BaseValue::Float(f) => format!("{}", f),
+                        other => format!("{:?}", other),
+                    })
+                    .collect(),
+            );
             println!(
                 "Iteration {} - Swap: {}",
                 iteration_counter,
